@@ -248,11 +248,12 @@ def items(tier):
         out.append(it)
     if tier == "quick":
         out += universe.one_dev([s for s in sq if s.startswith("gen/") or s.startswith("cls/")], KQ)
+        out += universe.one_dev(sorted(sq), ("UPI",))  # an identifier used with another letter case than its declaration (the consistent-case rules)
     else:
         for it in out:
             if it["seed"].startswith("fix/") and it["style"] is None:
                 it["subsets"] = True
-        out += universe.one_dev(corpus.small_slice(), KT)
+        out += universe.one_dev(corpus.small_slice(), KT + ("UPI",))
     return out
 
 
